@@ -13,7 +13,24 @@ VARIABLES fr, items
 vars == <<fr, items>>
 
 F(pol, path, scope, req, pad, lim, q, sel, maxlen) ==
-  [pol |-> pol, path |-> path, scope |-> scope, req |-> req, pad |-> pad[1], tail |-> pad[2], lim |-> lim, q |-> q, sel |-> sel, maxlen |-> maxlen]
+  [pol |-> pol, path |-> path, scope |-> scope, req |-> req, pad |-> pad[1], tail |-> pad[2], lim |-> lim, q |-> q, sel |-> sel, maxlen |-> maxlen,
+   \* queue_limits.max_depth and the free room before the request (near-full frames: depth 8, room 1)
+   depth |-> IF lim = "none" THEN 0 ELSE 8, room |-> IF lim = "none" THEN 0 ELSE 1]
+
+\* large batches into a queue that has room for only a part of them: n items (one abstract item behind n-1 acceptable
+\* ones), 60 active messages before, max_depth = 60 + room
+BigActive == 60
+FB(path, scope, n, lim, q, room) ==
+  [F("P0", path, scope, "ok", <<n - 1, 0>>, lim, q, "bigq", 1) EXCEPT !.depth = BigActive + room, !.room = room]
+
+BigFrames ==
+  IF MaxLen >= 4
+  THEN UNION { { FB(ps[1], ps[2], n, lim, q, room) : room \in {1, 249, 250, 251, n - 1} } :
+                 ps \in {<<"global", "-">>, <<"scoped", "app1/ep1">>}, n \in {251, 400, 600, 1000},
+                 lim \in {"reject", "drop_oldest"}, q \in {"near_full", "near_full_leased"} }
+  ELSE { FB(ps[1], ps[2], x[1], lq[1], lq[2], x[2]) :
+           ps \in {<<"global", "-">>, <<"scoped", "app1/ep1">>}, x \in {<<251, 250>>, <<400, 1>>, <<400, 250>>, <<400, 399>>},
+           lq \in {<<"reject", "near_full">>, <<"drop_oldest", "near_full_leased">>} }
 
 NoPad == <<0, 0>>
 
@@ -38,13 +55,14 @@ Frames ==
             ps \in {<<"global", "-">>, <<"scoped", "app1/ep1">>} } \cup
   \* near-full queues under both drop policies
   { F("P0", ps[1], ps[2], "ok", NoPad, lim, q, "queue", 4) :
-      ps \in {<<"global", "-">>, <<"scoped", "app1/ep1">>}, lim \in {"reject", "drop_oldest"}, q \in {"near_full", "near_full_leased"} }
+      ps \in {<<"global", "-">>, <<"scoped", "app1/ep1">>}, lim \in {"reject", "drop_oldest"}, q \in {"near_full", "near_full_leased"} } \cup
+  BigFrames
 
 SmallKinds(f) == {Filler(f.path, f.scope), "payload_over", "dup_queue", "dup_prev", "missing_id", "header_bad_value"}
 
 PadKinds(f) == IF MaxLen >= 4 THEN SmallKinds(f) ELSE {Filler(f.path, f.scope), "payload_over", "dup_queue"}
 
-FrameKinds(f) == IF f.sel = "queue" THEN SmallKinds(f) ELSE IF f.sel = "pad" THEN PadKinds(f) ELSE Kinds(f.path)
+FrameKinds(f) == IF f.sel = "bigq" THEN {Filler(f.path, f.scope), "payload_over"} ELSE IF f.sel = "queue" THEN SmallKinds(f) ELSE IF f.sel = "pad" THEN PadKinds(f) ELSE Kinds(f.path)
 
 Init == fr \in Frames /\ items = <<>>
 
